@@ -263,4 +263,105 @@ func (c *ctx) shapeFacts() {
 	c.emitShape("shape_local_StoreChunk", "localStoreChunkShape", sh, fd != nil)
 }
 
-func (c *ctx) miscFacts() {}
+// pool shapes: what the feeder does on ctx.Done() and how the result is computed
+func (c *ctx) miscFacts() {
+	c.lean.WriteString("\n/-! worker-pool functions: (marks interruption in the ctx.Done arm, reports it after Wait) -/\n")
+	type pf struct{ recv, name string }
+	for _, f := range []pf{{"", "AssembleFile"}, {"Plan", "Validate"}, {"", "VerifyIndex"}, {"", "ChopFile"}, {"", "Copy"}, {"", "ChunkStream"}, {"", "UnTarIndex"}} {
+		fd := c.funcDecl(c.files, f.recv, f.name)
+		marks, reports, hasSelect := false, false, false
+		if fd != nil {
+			// the flag variable assigned `true` inside a `case <-ctx.Done():` arm
+			flag := ""
+			allArmsMark := true
+			walk(fd.Body, func(n ast.Node) bool {
+				cc, ok := n.(*ast.CommClause)
+				if !ok || cc.Comm == nil {
+					return true
+				}
+				es, ok := cc.Comm.(*ast.ExprStmt)
+				if !ok || exprString(es.X) != "<-ctx.Done()" {
+					return true
+				}
+				// only arms that leave a feeder loop (contain a labelled break) are of interest
+				breaks := false
+				armFlag := ""
+				for _, st := range cc.Body {
+					switch t := st.(type) {
+					case *ast.BranchStmt:
+						if t.Tok == token.BREAK && t.Label != nil {
+							breaks = true
+						}
+					case *ast.AssignStmt:
+						if len(t.Lhs) == 1 && len(t.Rhs) == 1 && exprString(t.Rhs[0]) == "true" {
+							armFlag = exprString(t.Lhs[0])
+						}
+					}
+				}
+				if !breaks {
+					return true
+				}
+				hasSelect = true
+				// the assemble step of UnTarIndex also breaks on ctx.Done(); it is not a feeder (it consumes)
+				if armFlag == "" {
+					if strings.Contains(exprString(cc.Comm.(*ast.ExprStmt).X), "ctx.Done") && f.name == "UnTarIndex" && flag != "" {
+						return true
+					}
+					allArmsMark = false
+				} else {
+					flag = armFlag
+				}
+				return true
+			})
+			marks = hasSelect && flag != "" && (allArmsMark || f.name == "UnTarIndex")
+			if flag != "" {
+				walk(fd.Body, func(n ast.Node) bool {
+					switch t := n.(type) {
+					case *ast.CallExpr:
+						if exprString(t.Fun) == "waitOrInterrupted" && len(t.Args) == 2 && exprString(t.Args[1]) == flag {
+							reports = true
+						}
+					case *ast.IfStmt:
+						if exprString(t.Cond) == flag && len(t.Body.List) == 1 {
+							if rs, ok := t.Body.List[0].(*ast.ReturnStmt); ok && len(rs.Results) >= 1 &&
+								strings.HasPrefix(exprString(rs.Results[len(rs.Results)-1]), "Interrupted") {
+								reports = true
+							}
+						}
+					}
+					return true
+				})
+			}
+		}
+		name := f.name
+		if f.recv != "" {
+			name = f.recv + name
+		}
+		c.site("pool_"+name, fd != nil && hasSelect)
+		fmt.Fprintf(&c.lean, "def poolShape_%s : Bool × Bool := (%v, %v)\n", name, marks, reports)
+		c.facts["poolShape_"+name] = []bool{marks, reports}
+	}
+	// waitOrInterrupted itself: returns the group's error first, Interrupted when flagged, else nil
+	okHelper := false
+	if fd := c.funcDecl(c.files, "", "waitOrInterrupted"); fd != nil {
+		src := []string{}
+		for _, st := range fd.Body.List {
+			switch t := st.(type) {
+			case *ast.IfStmt:
+				src = append(src, "if:"+exprString(t.Cond))
+				if t.Init != nil {
+					if as, ok := t.Init.(*ast.AssignStmt); ok && len(as.Rhs) == 1 {
+						src[len(src)-1] = "if:" + exprString(as.Rhs[0]) + ";" + exprString(t.Cond)
+					}
+				}
+			case *ast.ReturnStmt:
+				if len(t.Results) == 1 {
+					src = append(src, "return:"+exprString(t.Results[0]))
+				}
+			}
+		}
+		okHelper = strings.Join(src, "|") == "if:g.Wait();err!=nil|if:interrupted|return:nil"
+		c.facts["waitOrInterrupted"] = src
+	}
+	c.site("pool_waitOrInterrupted", okHelper)
+}
